@@ -124,6 +124,23 @@ function __fresh(){ __buf = Buffer.from([1,2,3,4,5,6,7,8,9,10]); __url = new URL
 	}
 	sort.Strings(names)
 	out.Extra["inventory"] = names
+	families := map[string][]target{} // the targets of one object: console, util, Buffer.prototype, ...
+	var famNames []string
+	for _, t := range targets {
+		f := t.path
+		if i := strings.Index(f, "["); i > 0 {
+			f = f[:i]
+		} else if strings.Contains(f, "getOwnPropertyDescriptor(") {
+			f = strings.SplitN(strings.SplitN(f, "getOwnPropertyDescriptor(", 2)[1], ",", 2)[0]
+		} else {
+			f = "globals"
+		}
+		if _, ok := families[f]; !ok {
+			famNames = append(famNames, f)
+		}
+		families[f] = append(families[f], t)
+	}
+	out.Extra["families"] = famNames
 
 	type result struct {
 		kind string // ok | throw | panic
@@ -346,6 +363,57 @@ function __fresh(){ __buf = Buffer.from([1,2,3,4,5,6,7,8,9,10]); __url = new URL
 			}
 			out.Add("crashed", desc, true, tags...)
 			out.Count("family", "reentrant-callback")
+			continue
+		}
+		if c%12 == 5 { // sequences: several methods of one object in a row, in random order (state one call leaves behind meets the next)
+			fam := families[famNames[r.Intn(len(famNames))]]
+			k := 2 + r.Intn(5)
+			var sb strings.Builder
+			var calls []string
+			for i := 0; i < k; i++ {
+				t := fam[r.Intn(len(fam))]
+				if t.ctor {
+					continue
+				}
+				nargs := r.Intn(3)
+				var args []string
+				for j := 0; j < nargs; j++ {
+					a := r.Pick(hostile)
+					if strings.Contains(t.path, `"alloc"`) && (a == "2147483647" || a == "2147483648" || a == "4294967295") {
+						a = "67108864"
+					}
+					args = append(args, a)
+				}
+				recv := t.recv
+				if recv == "" {
+					recv = "undefined"
+				}
+				ce := "(" + t.path + ").call(" + strings.Join(append([]string{recv}, args...), ", ") + ")"
+				calls = append(calls, ce)
+				sb.WriteString("try { " + ce + " } catch (e) {} ")
+			}
+			callExpr := strings.Join(calls, "; ")
+			script := "__fresh(); (function(){ " + sb.String() + "return 'ok' })()"
+			lib.Breadcrumb(outPath, callExpr)
+			res, hung := call(script)
+			id := len(out.Cases)
+			desc := map[string]interface{}{"call": callExpr, "outcome": res.kind, "note": "each call in its own try/catch; the runtime (and the state earlier cases left in it) is kept until a failure"}
+			tags := []string{"method-sequence"}
+			switch {
+			case hung:
+				out.Fail(id, "hang", desc, tags...)
+				vm = newVM()
+			case res.kind == "panic":
+				desc["panic"] = res.msg
+				out.Fail(id, "go-panic-escaped", desc, tags...)
+				vm = newVM()
+			case res.kind == "uncaught":
+				desc["error"] = res.msg
+				out.Fail(id, "uncatchable-error", desc, tags...)
+			}
+			out.Add("crashed", desc, true, tags...)
+			out.Count("family", "method-sequence")
+			out.Count("outcome", res.kind)
 			continue
 		}
 		t := targets[c%len(targets)]
